@@ -27,6 +27,9 @@
 (* Mode "approx": two channels with big biases: _integer_approximation     *)
 (*    under the 32-bit constraint on bias*scale (SelNone, SelSound,        *)
 (*    SelOptimal, ScalesRange, ErrBelowStep).                              *)
+(* Mode "edge": the boundary of the option ranges (shifts 0..31, scales up  *)
+(*    to 2^31, shift_pos 0/1, scale_bit 1) with unbounded integers; the     *)
+(*    sanity variant "2^shift in 32-bit two's complement" must fail.        *)
 (* Mode "big": algebraic identities of the big-number library against      *)
 (*    TLC's native integers.                                               *)
 (* Every state of modes "layer" and "approx" is also EXECUTED on the real  *)
@@ -69,6 +72,16 @@ Big_quick    == {-1073741823, -16385, -16384, -1, 0, 1, 16383, 16384, 32768, 268
 Big_thorough == Big_quick \cup {-268435457, -16383, -3, 2, 16385}
 None1 == {0}
 T_none == {<<1, 0>>}
+\* mode "edge": targets tm / 2^s with ODD tm (first exact at shift s), every s in 0..31
+EdgeTm_quick    == {1, 6962545}
+EdgeTm_thorough == {1, 3, 21845, 6962545, 1073741823}
+EdgeS_all       == 0..31
+T_edge_quick    == {<<t, s>> : t \in EdgeTm_quick, s \in EdgeS_all}
+T_edge_thorough == {<<t, s>> : t \in EdgeTm_thorough, s \in EdgeS_all}
+W_edge == {1, 127}
+B_edge == {-1, 0}
+B_edge_thorough == {-1, 0, 200}
+EdgeX  == {0, 200}
 
 vars == <<ib, ob, w, x, b, tm, te, sbit, spos, ph, sh, sc>>
 
@@ -100,6 +113,11 @@ Init ==
              /\ tm = <<t1[1], t2[1]>> /\ te = t1[2]
        /\ sbit \in ScaleBits /\ spos \in ShiftPoss
        /\ Blank
+    \/ /\ Mode = "edge"
+       /\ ib \in InBits /\ ob \in OutBits
+       /\ \E t \in Targets : tm = <<t[1]>> /\ te = t[2]
+       /\ sbit \in ScaleBits /\ spos \in ShiftPoss
+       /\ Blank
     \/ /\ Mode = "big"
        /\ ib \in BigVals /\ ob = 0 /\ sbit = 0
        /\ tm = <<>> /\ te = 0
@@ -119,6 +137,25 @@ FillSel ==
     /\ ph' = "sel"
     /\ UNCHANGED <<ib, ob, w, x, tm, te, sbit, spos>>
 
+\* mode "edge": the same two steps with unbounded integers (sc holds big-number records)
+EdgeTmB == [i \in DOMAIN tm |-> BigInt(tm[i])]
+EdgeTes == [i \in DOMAIN tm |-> -te]
+FillSelEdge ==
+    /\ Mode = "edge" /\ ph = "cfg"
+    /\ \E v \in BVals :
+          /\ b' = <<v>>
+          /\ LET s == ShiftSelectBig(EdgeTmB, EdgeTes, <<BigInt(v)>>, sbit, spos)
+             IN  sh' = s /\ sc' = IF s = -1 THEN <<>> ELSE <<ScaleForBig(BigInt(tm[1]), -te, s, sbit)>>
+    /\ ph' = "sel"
+    /\ UNCHANGED <<ib, ob, w, x, tm, te, sbit, spos>>
+
+FillOpsEdge ==
+    /\ Mode = "edge" /\ ph = "sel" /\ sh # -1
+    /\ w' \in WVals \X WVals
+    /\ x' \in EdgeX \X EdgeX
+    /\ ph' = "done"
+    /\ UNCHANGED <<ib, ob, b, tm, te, sbit, spos, sh, sc>>
+
 \* the operands of one output element
 FillOps ==
     /\ Mode = "layer" /\ ph = "sel" /\ sh # -1
@@ -134,7 +171,7 @@ FillBig ==
     /\ ph' = "done"
     /\ UNCHANGED <<ib, ob, tm, te, sbit, spos>>
 
-Next == FillSel \/ FillOps \/ FillBig
+Next == FillSel \/ FillOps \/ FillSelEdge \/ FillOpsEdge \/ FillBig
 Spec == Init /\ [][Next]_vars
 
 (***************************************************************************)
@@ -214,6 +251,38 @@ BridgeSelect ==
     (Mode \in {"layer", "approx"} /\ ph = "sel") =>
         ShiftSelectBig([i \in DOMAIN tm |-> BigInt(tm[i])], [i \in DOMAIN tm |-> -te],
                        [i \in DOMAIN b |-> BigInt(b[i])], sbit, spos) = sh
+
+(***************************************************************************)
+(* mode "edge": the boundary of the documented option ranges               *)
+(* (shift_pos up to 32, i.e. shifts 0..31; scale_bit 1..32; shift_pos 0/1) *)
+(* with unbounded integers.  Targets are tm/2^s with odd tm, so that the   *)
+(* approximation is first exact at shift s and EVERY shift 0..31 is the    *)
+(* selected one in some state (EdgeEveryShift).                            *)
+(***************************************************************************)
+IsEdgeSel  == Mode = "edge" /\ ph = "sel"
+IsEdge     == Mode = "edge" /\ ph = "done"
+ES    == sc[1]
+EB    == BigInt(b[1])
+EAcc  == w[1] * x[1] + w[2] * x[2]
+EAccOff == w[1] * (x[1] + LoIn) + w[2] * (x[2] + LoIn)
+EMatch == RequantImplBig(Impl, BigInt(EAcc), ES, BigMul(EB, ES), sh, 0, L(ob))
+EFake  == FakeLevelBig(BigInt(EAcc + b[1]), BigInt(tm[1]), -te, ob)
+EZP    == ZeroPointBig("ref", BigMul(EB, ES), ES, sh, LoIn, LoOut, BigInt(WSum))
+
+EdgeSel ==
+    IsEdgeSel => /\ sh \in -1..(spos - 1)
+                 /\ sh # -1 => /\ BigLe(BigInt(1), ES) /\ BigLe(ES, BigPow2(sbit - 1))
+                               /\ BigFitsI32(BigMul(EB, ES))
+                 /\ sh = -1 <=> \A s \in 0..(spos - 1) : OverflowBig(EdgeTmB, EdgeTes, <<EB>>, s, sbit)
+\* the exact shift is the selected one whenever it is admissible
+EdgeEveryShift ==
+    (IsEdgeSel /\ te < spos /\ BigLe(BigInt(tm[1]), BigPow2(sbit - 1)) /\ BigFitsI32(BigMul(EB, BigInt(tm[1]))))
+        => (sh = te /\ ES = BigInt(tm[1]))
+EdgeLevel ==
+    IsEdge => Abs(EMatch - EFake) <= 1 + ApproxFloorBig(BigInt(EAcc + b[1]), ES, sh, BigInt(tm[1]), -te)
+EdgeMaupiti ==
+    IsEdge => RequantImplBig(Impl, BigInt(EAccOff), ES, EZP, sh, LoOut, HiOut) = EMatch + LoOut
+EdgeRange == IsEdge => EMatch \in 0..L(ob)
 
 (***************************************************************************)
 (* mode "approx"                                                           *)
